@@ -1407,6 +1407,47 @@ pub fn run(rng: &mut R, out: &mut Out) {
             psets.push(p);
         }
     }
+    // PSETs that are well-formed BY CONSTRUCTION (from_tx of an all-explicit transaction plus one class of addition):
+    // here the text round trip is demanded outright, whatever the binary decoder does — uncompressed public keys
+    // as map keys / values, control blocks with 0, 1, 127 and 128 merkle nodes, maximal derivation paths
+    for k in 0..(8 * scale) {
+        let mut t = gen::tx_wide(rng, 2, 2);
+        for i in t.input.iter_mut() { *i = gen::txin(rng, gen::InKind::Plain, false); if i.previous_output.vout == 0xffff_ffff { i.previous_output.vout = 1; } }
+        for o in t.output.iter_mut() {
+            let mut spk = vec![0x00, 0x14]; spk.extend(gen::bytes(rng, 20));
+            *o = elements::TxOut { asset: Asset::Explicit(gen::asset_id(rng)), value: Value::Explicit(1 + gen::u64_edge(rng) % 1000), nonce: Nonce::Null, script_pubkey: Script::from(spk), witness: TxOutWitness::default() };
+        }
+        let mut p = Pset::from_tx(t);
+        let unc = |rng: &mut R| { let mut pk = btc_pubkey(rng); pk.compressed = false; pk };
+        match k % 4 {
+            0 => {
+                p.inputs_mut()[0].partial_sigs.insert(unc(rng), gen::bytes(rng, 71));
+                p.inputs_mut()[1].bip32_derivation.insert(unc(rng), key_source(rng));
+                p.outputs_mut()[0].bip32_derivation.insert(unc(rng), key_source(rng));
+                out.count("pset.constructed.uncompressed_keys");
+            }
+            1 | 2 => {
+                for n in [0usize, 1, 127, 128] {
+                    let cb = elements::taproot::ControlBlock {
+                        leaf_version: leaf_version(rng), output_key_parity: if rng.gen_bool(0.5) { zkp::Parity::Even } else { zkp::Parity::Odd }, internal_key: xonly(rng),
+                        merkle_branch: elements::taproot::TaprootMerkleBranch::from_inner((0..n).map(|_| elements::taproot::TapNodeHash::from_byte_array(gen::arr32(rng))).collect()).expect("<= 128 nodes"),
+                    };
+                    p.inputs_mut()[n % 2].tap_scripts.insert(cb, (gen::script(rng), leaf_version(rng)));
+                }
+                out.count("pset.constructed.control_blocks_0_1_127_128");
+            }
+            _ => {
+                let mut pk = btc_pubkey(rng); pk.compressed = true;
+                p.inputs_mut()[0].partial_sigs.insert(pk, gen::bytes(rng, 72));
+                out.count("pset.constructed.compressed_key_control");
+            }
+        }
+        let b = serialize(&p);
+        let s = p.to_string();
+        let back = std::panic::catch_unwind(std::panic::AssertUnwindSafe(|| Pset::from_str(&s)));
+        out.s("text_roundtrip.pset_base64", matches!(&back, Ok(Ok(p2)) if *p2 == p), || format!("constructed PSET (variant {}): {} -> {:?}", k % 4, hex(&b), back.as_ref().map(|r| r.as_ref().map(|_| "parsed to a different PSET").map_err(|e| e.to_string()))));
+        psets.push(p);
+    }
     text_b64(out, rng, 60 * scale, &psets);
 
     // ---------------- serde: hand-written impls (K + S)
